@@ -1,0 +1,179 @@
+//! Verification hooks. Compiled only with `--cfg agdb_verif`; with the
+//! guard off this module does not exist and nothing refers to it.
+//!
+//! * `fs_event`: callback invoked *before* every mutating file-system call of
+//!   `FileStorage` and `WriteAheadLog` so a harness can reconstruct both files
+//!   as they were at that instant (crash points).
+//! * `StorageHandle`: public newtype over the crate-private `Storage` so a
+//!   harness can drive the storage layer directly.
+//! * read counters / read gap: observability of the contended path of
+//!   `FileStorage::read`.
+
+use crate::DbError;
+use crate::StorageData;
+use crate::storage::Storage;
+use crate::storage::StorageIndex;
+use std::cell::RefCell;
+use std::sync::atomic::AtomicU64;
+use std::sync::atomic::Ordering;
+
+#[derive(Debug, Clone, Copy, PartialEq, Eq)]
+pub enum FsFile {
+    Data,
+    Wal,
+}
+
+#[derive(Debug, Clone, PartialEq, Eq)]
+pub enum FsOp {
+    /// seek to `pos` and write `bytes`
+    WriteAt { pos: u64, bytes: Vec<u8> },
+    /// write `bytes` at the current end of the file
+    Append { bytes: Vec<u8> },
+    /// truncate or extend (zero filled) to `len`
+    SetLen { len: u64 },
+    /// the data file is renamed and the old log file removed
+    Rename { to: String },
+}
+
+#[derive(Debug, Clone, PartialEq, Eq)]
+pub struct FsEvent {
+    pub file: FsFile,
+    pub op: FsOp,
+    pub site: &'static str,
+}
+
+type Sink = Box<dyn FnMut(&FsEvent)>;
+
+thread_local! {
+    static SINK: RefCell<Option<Sink>> = const { RefCell::new(None) };
+}
+
+/// Installs the per-thread sink receiving every file system event
+/// of storages used on this thread.
+pub fn set_fs_sink(sink: Sink) {
+    SINK.with(|s| *s.borrow_mut() = Some(sink));
+}
+
+/// Removes the per-thread sink and returns it.
+pub fn take_fs_sink() -> Option<Sink> {
+    SINK.with(|s| s.borrow_mut().take())
+}
+
+pub(crate) fn fs_event(file: FsFile, site: &'static str, op: impl FnOnce() -> FsOp) {
+    SINK.with(|s| {
+        if let Ok(mut guard) = s.try_borrow_mut()
+            && let Some(sink) = guard.as_mut()
+        {
+            sink(&FsEvent {
+                file,
+                op: op(),
+                site,
+            });
+        }
+    });
+}
+
+pub static READS_LOCKED: AtomicU64 = AtomicU64::new(0);
+pub static READS_FALLBACK: AtomicU64 = AtomicU64::new(0);
+pub static READ_GAP_YIELDS: AtomicU64 = AtomicU64::new(0);
+
+/// Called between the `seek` and the `read` of a file read. When
+/// `READ_GAP_YIELDS` is non zero the thread yields that many times,
+/// widening the window in which another reader could move a shared cursor.
+pub(crate) fn read_gap() {
+    let n = READ_GAP_YIELDS.load(Ordering::Relaxed);
+
+    for _ in 0..n {
+        std::thread::yield_now();
+    }
+}
+
+/// Public handle to the crate-private storage layer.
+pub struct StorageHandle<D: StorageData>(Storage<D>);
+
+impl<D: StorageData> StorageHandle<D> {
+    pub fn new(name: &str) -> Result<Self, DbError> {
+        Ok(Self(Storage::new(name)?))
+    }
+
+    pub fn with_data(data: D) -> Result<Self, DbError> {
+        Ok(Self(Storage::with_data(data)?))
+    }
+
+    pub fn insert_bytes(&mut self, bytes: &[u8]) -> Result<u64, DbError> {
+        Ok(self.0.insert_bytes(bytes)?.0)
+    }
+
+    pub fn insert_bytes_at(
+        &mut self,
+        index: u64,
+        offset: u64,
+        bytes: &[u8],
+    ) -> Result<(), DbError> {
+        self.0.insert_bytes_at(StorageIndex(index), offset, bytes)
+    }
+
+    pub fn replace_with_bytes(&mut self, index: u64, bytes: &[u8]) -> Result<(), DbError> {
+        self.0.replace_with_bytes(StorageIndex(index), bytes)
+    }
+
+    pub fn resize_value(&mut self, index: u64, new_size: u64) -> Result<(), DbError> {
+        self.0.resize_value(StorageIndex(index), new_size)
+    }
+
+    pub fn move_at(&mut self, index: u64, from: u64, to: u64, size: u64) -> Result<(), DbError> {
+        self.0.move_at(StorageIndex(index), from, to, size)
+    }
+
+    pub fn remove(&mut self, index: u64) -> Result<(), DbError> {
+        self.0.remove(StorageIndex(index))
+    }
+
+    pub fn optimize_storage(&mut self) -> Result<(), DbError> {
+        self.0.optimize_storage()
+    }
+
+    pub fn value_as_bytes(&self, index: u64) -> Result<Vec<u8>, DbError> {
+        Ok(self.0.value_as_bytes(StorageIndex(index))?.to_vec())
+    }
+
+    pub fn value_as_bytes_at_size(
+        &self,
+        index: u64,
+        offset: u64,
+        size: u64,
+    ) -> Result<Vec<u8>, DbError> {
+        Ok(self
+            .0
+            .value_as_bytes_at_size(StorageIndex(index), offset, size)?
+            .to_vec())
+    }
+
+    pub fn value_size(&self, index: u64) -> Result<u64, DbError> {
+        self.0.value_size(StorageIndex(index))
+    }
+
+    pub fn len(&self) -> u64 {
+        self.0.len()
+    }
+
+    pub fn is_empty(&self) -> bool {
+        self.0.len() == 0
+    }
+
+    pub fn transaction(&mut self) -> u64 {
+        self.0.transaction()
+    }
+
+    pub fn commit(&mut self, id: u64) -> Result<(), DbError> {
+        self.0.commit(id)
+    }
+
+    pub fn backup(&self, name: &str) -> Result<(), DbError> {
+        self.0.backup(name)
+    }
+
+    pub fn name(&self) -> &str {
+        self.0.name()
+    }
+}
